@@ -404,7 +404,11 @@ class LocalStorageBackend(StorageBackend):
     def create_lock(self, path: str, timeout: float = 30.0) -> "LockProvider":
         from .lock_provider import LocalLockProvider
         full_path = self._resolve_path(path)
-        return LocalLockProvider(full_path, timeout)
+        # Re-resolved (and boundary-checked) at every acquisition: the lock
+        # object lives as long as the table handle, and a '.locks' directory
+        # that became a symlink in the meantime must not lead the lock file
+        # outside the table root.
+        return LocalLockProvider(full_path, timeout, resolve=lambda: self._resolve_path(path))
 
 
 class S3FileStream:
